@@ -20,7 +20,7 @@ EXPLANATION = (
     'text is cleared when a status without error arrives; R7 the zone list handed out is not the stored one (C11.R2 re-used).'
 )
 ASSUMPTIONS = ["Enum members are compared by identity; dict lookup of a missing key raises KeyError"]
-FLOORS = {"C10.R1": 14, "C10.R2": 10, "C10.R3": 40, "C10.R4": 8, "C10.R5": 6, "C10.R6": 6, "C10.R7": 1, "C10.R8": 1}
+FLOORS = {"C10.R1": 14, "C10.R2": 10, "C10.R3": 40, "C10.R4": 8, "C10.R5": 6, "C10.R6": 6, "C10.R7": 1, "C10.R8": 1, "C10.R9": 1}
 
 # getter -> how names are translated (None = identity)
 def _selected_mode(n):
@@ -83,6 +83,9 @@ def run(ctx):
         for key, spec in c05.T.STATUS.items():
             c05.check_decoder(c, key, spec)
 
+    from . import c07
+
+    _reuse(ctx, "C10.R9", [c07.r7], "a raising subscriber does not abort the loop over the records of a frame: the entities listed after it are still updated (C07.R7)")
     _reuse(ctx, "C10.R8", [status_decoders], "the records the object model stores are decoded as the vendor defines (layout, code tables, affine readings: C05.R1-R3), so an attribute equals the protocol reading of the frame",
            keep=lambda o: o.rule in ("C05.R1", "C05.R2", "C05.R3") or (o.verdict != "HOLDS" and "not-available" not in o.construct and o.rule != "C05.R4"))
     from . import c11
@@ -177,6 +180,10 @@ def r2(ctx):
         uncond = g.all_paths_pass(g.entry.id, [g.exit.id], [s.id for s in stores], NONEXC)
         under_change = bool(a["changed"]) and all(g.all_paths_pass(cb.id, [g.exit.id], [s.id for s in stores], NONEXC) for _, cb, _ in a["changed"]) and not uncond
         ctx.check(uncond or under_change, R, f"{lab}:last-writer-wins", m, stores[0].ast, "the store lies on every normal path (or on every path where old != new)", "a path returns with the stale record")
+        # the record is stored before the handler first suspends: handlers of two frames for one entity may overlap (a send
+        # blocked in drain), and a store made after an await lets the older frame's handler overwrite the newer record
+        early = [n for n in g.nodes if n.awaits and any(g.exists_path(n.id, s.id, labels=NONEXC) for s in stores)]
+        ctx.check(not early, R, f"{lab}:stored-before-first-await", m, (early[0].ast if early else stores[0].ast), "nothing is awaited before the new record is stored (the model shows a frame as soon as its handler starts, and an older frame's handler cannot overwrite a newer record)", f"`{norm_text(early[0].ast)[:70]}` (line {early[0].lineno}) can suspend before the store" if early else "")
         # nothing restores the old record afterwards
         attr = a["stores"][0][1]
         later = [n for n, v in f.assigns(f"self.{attr}") if n not in stores]
